@@ -18,6 +18,7 @@ RULE = (
     "free in (0.05,0.97) or a usual level, robust on/off, with/without a covariate and a fixed effect) go through "
     "NonparametricElectionModel.get_unit_prediction_intervals; the reference takes the UNADJUSTED bounds and the "
     "calibration frame from get_unit_prediction_interval_bounds (same arguments; trusted building block) and computes "
+    "(which must be held out: fewer calibration than reporting units, no unit twice) and computes "
     "from the statement q = alpha(1+1/n_cal), scores = max(lower - r, r - upper), c_pop = smallest score whose "
     "baseline-weighted share of scores <= it exceeds q, c = max(c_pop, quantile(scores, q)) if robust; asserts the "
     "invariant on itself and then returned lower/upper == round(max((b -/+ c) w + w, counted)). Non-trivial: at least "
